@@ -59,6 +59,24 @@ Theorem staging_sites_listed :
 Proof. exact sites_listed_proof. Qed.
 Print Assumptions staging_sites_listed.
 
+(* the functions that open the output of a publish protocol (table regenerated on every run): the destination
+   is inspected with os.Stat only (symlinks are followed: mode and existence are those of the resolved file,
+   and the NAME is what gets re-bound by the rename), and every open is O_CREATE|O_EXCL without O_TRUNC/O_APPEND:
+   no existing path — regular, symlink, device — can be opened for writing by a publish site *)
+Theorem publish_sites_exclusive :
+  forall name s, In (name, s) publish_sites ->
+  (forall k, In k (ps_stats s) -> k = SStat) /\
+  (forall fl, In fl (ps_opens s) -> open_exclusive fl = true) /\
+  ps_opens s <> [].
+Proof. exact publish_sites_exclusive_proof. Qed.
+Print Assumptions publish_sites_exclusive.
+
+Theorem publish_sites_listed :
+  map fst publish_sites =
+  ["createStreamOutput"; "openStagedOutputWithOperations"; "createStagedFile"; "writeCutOutputWith"]%string.
+Proof. exact publish_sites_listed_proof. Qed.
+Print Assumptions publish_sites_listed.
+
 (* no operation of any protocol ever writes into a pre-existing file: at every cut point every
    pre-existing path other than the destination holds its original file, and the destination holds its
    original file or the complete output *)
